@@ -48,7 +48,7 @@ func genErrMsg(t *core.Tape, notes map[string]int) string {
 	case "crlf":
 		return []string{"line1\nline2", "cr\rlf\r\n", "\n", "x\r\nGrpc-Status: 0"}[t.Choose(4, "which")]
 	case "blanks":
-		return []string{" leading", "trailing ", "  both  ", " ", "\tx\t"}[t.Choose(5, "which")]
+		return []string{" leading", "trailing ", "  both  ", " ", "\tx\t", " leading é", " 100% leading", "trailing \x01 ", " é "}[t.Choose(9, "which")]
 	case "long":
 		return strings.Repeat("long message é ", 20+t.Choose(200, "n"))
 	default:
@@ -142,7 +142,15 @@ func genErrPlan(t *core.Tape, notes map[string]int, bin map[string][][]byte) *Er
 			e.Details = append(e.Details, DetailPlan{Kind: t.Choose(4, "detail.kind"), Data: t.Bytes(t.Choose(40, "detail.n"), 1+t.Choose(2, "dk"), "detail")})
 		}
 		e.Meta = genMeta(t, "X-M", bin)
-		if t.Bool(1, 8, "err.meta.raw.key") {
+		if t.Bool(1, 10, "err.meta.key.without.values") {
+			// a key that holds no values (the values of a header that was not
+			// sent, stored under it): no metadata at all on the wire
+			if e.RawMeta == nil {
+				e.RawMeta = http.Header{}
+			}
+			e.RawMeta["X-M-Absent"] = nil
+			notes["err_meta_key_without_values"]++
+		} else if t.Bool(1, 8, "err.meta.raw.key") {
 			// the same field name once more, under a map key written by hand in
 			// another spelling: http.Header is a plain map, and a value stored
 			// that way is metadata the application attached like any other
